@@ -5,7 +5,7 @@ from . import _hist
 LEVEL = "exploration"
 SHARDS = {"quick": 8, "thorough": 16}
 BUDGET = {"quick": 18, "thorough": 180}
-RULE = ("same history workloads as C01 (EX1/EX2/RND/STRESS, interval spans, re-adds, overlaps, several pairs "
+RULE = ("same history workloads as C01 (EX1/EX2/RND/STRESS/PASSIVE, interval spans, re-adds, overlaps, several pairs "
         "per instant, reciprocal directed pairs, self-loops); after every accepted call "
         "temporal_snapshots_ids() == sorted union of presence, interactions_per_snapshots() and (t) for every "
         "t in the window == number of pairs present, avg_number_of_nodes() == mean of |V_t|, dn. wrappers "
@@ -18,13 +18,26 @@ def battery(ctx, dn, G, m):
     audit.audit_snapshots(ctx, dn, G, m)
 
 
+def passive_battery(ctx, dn, G, m):
+    # graphs built by the repository's own tests (removal-enabled ones; accumulative ones belong to C08)
+    if m.removal:
+        battery(ctx, dn, G, m)
+
+
 def run(ctx, dn):
+    if ctx.shard == 0:
+        from .. import passive
+        ctx.notes["passive_graphs"] = passive.run(ctx, dn, passive_battery)
     if ctx.tier == "quick":
         _hist.exhaustive(ctx, dn, battery, 2, two_pairs_len=2)
-        _hist.random_histories(ctx, dn, battery, until=3)
+        _hist.second_life(ctx, dn, battery, 6)
+        _hist.long_timelines(ctx, dn, battery, 4)
+        _hist.random_histories(ctx, dn, battery, until=3, clears=True)
         _hist.stress(ctx, dn, battery, 1500, every=100)
     else:
         _hist.exhaustive(ctx, dn, battery, 3, two_pairs_len=3)
-        _hist.random_histories(ctx, dn, battery, until=25)
+        _hist.second_life(ctx, dn, battery, 60)
+        _hist.long_timelines(ctx, dn, battery, 40)
+        _hist.random_histories(ctx, dn, battery, until=25, clears=True)
         for _ in range(3):
             _hist.stress(ctx, dn, battery, 6000, every=200)
